@@ -249,6 +249,7 @@ GOLDEN["golden_scope.json"] = (SCOPE_SPEC, [
     ("Resolve for PatId", "<zydeco_surface::bitter::syntax::PatId as zydeco_surface::scoped::resolver::Resolve>::resolve", "seq"),
     ("MobileCandidate::resolve", "zydeco_surface::scoped::blocks::MobileCandidate::resolve", "seqwhole"),
     ("BlockScope::new", "zydeco_surface::scoped::blocks::BlockScope::new", "seqwhole"),
+    ("Binders for PatId", "<zydeco_surface::bitter::syntax::PatId as zydeco_surface::scoped::binders::Binders>::binders", "armexpr"),
     ("resolve_reference", "zydeco_surface::scoped::resolver::Resolver::<'a>::resolve_reference", "seqwhole"),
     ("add_dependency", "zydeco_surface::scoped::resolver::Resolver::<'a>::add_dependency", "seqwhole"),
     ("TextualProgramBuilder::import", "zydeco_session::source::program::TextualProgramBuilder::<'graph>::import", "seqwhole"),
